@@ -2,8 +2,10 @@ package main
 
 import (
 	"go/ast"
+	"go/constant"
 	"go/token"
 	"go/types"
+	"strings"
 )
 
 // Site is an AST node inside a function.
@@ -340,4 +342,169 @@ func indexPairing(info *types.Info, fn *FuncInfo) (int, string, token.Pos) {
 		return true
 	})
 	return n, bad, badPos
+}
+
+// linearForm folds an integer expression built from +, -, parentheses, conversions and constants into
+// (coefficient per atom rendered with conversions stripped, constant part). ok=false for anything else at top level of a term
+// (such a term becomes an opaque atom with coefficient ±1, which is still exact for comparison purposes).
+func linearForm(info *types.Info, e ast.Expr) (map[string]int, int64) {
+	terms := map[string]int{}
+	var k int64
+	var walk func(e ast.Expr, sign int)
+	walk = func(e ast.Expr, sign int) {
+		e = unparen(e)
+		if tv, ok := info.Types[e]; ok && tv.Value != nil {
+			if v, exact := constant.Int64Val(constant.ToInt(tv.Value)); exact {
+				k += int64(sign) * v
+				return
+			}
+		}
+		switch x := e.(type) {
+		case *ast.BinaryExpr:
+			if x.Op == token.ADD {
+				walk(x.X, sign)
+				walk(x.Y, sign)
+				return
+			}
+			if x.Op == token.SUB {
+				walk(x.X, sign)
+				walk(x.Y, -sign)
+				return
+			}
+		case *ast.UnaryExpr:
+			if x.Op == token.SUB {
+				walk(x.X, -sign)
+				return
+			}
+			if x.Op == token.ADD {
+				walk(x.X, sign)
+				return
+			}
+		case *ast.CallExpr:
+			// integer conversion T(x)
+			if tv, ok := info.Types[x.Fun]; ok && tv.IsType() && len(x.Args) == 1 {
+				if b, isB := tv.Type.Underlying().(*types.Basic); isB && b.Info()&types.IsInteger != 0 {
+					walk(x.Args[0], sign)
+					return
+				}
+			}
+		}
+		terms[exprStr(e)] += sign
+		if terms[exprStr(e)] == 0 {
+			delete(terms, exprStr(e))
+		}
+	}
+	walk(e, 1)
+	return terms, k
+}
+
+// ruleTruncateCounts — structural necessary condition of "a truncated string holds at most limit characters" for the
+// truncate(limit, s) helpers: every character the scan keeps is counted against the limit.
+//   - a range loop over the string keeps what it steps over (the result is a prefix s[:i]): every path from the loop body
+//     back to the loop head increments the counter (paths that leave the loop are not constrained);
+//   - in a plain for loop a character is kept by a write to the builder: inside one loop no write reaches a write (itself on
+//     the next iteration, or another) without an increment in between.
+// The counter is the local integer compared with the limit parameter.
+func ruleTruncateCounts(c *Ctx, ix *PkgIndex, rule, short string) {
+	fn := c.Fn(ix, rule, "truncate")
+	if fn == nil {
+		return
+	}
+	info := ix.Pkg.TypesInfo
+	sig := fn.Obj.Type().(*types.Signature)
+	if sig.Params().Len() != 2 {
+		c.Undecided(rule, short+"|truncate|every kept character is counted", at(ix.M, fn.Pos()), "unexpected signature")
+		return
+	}
+	limit := sig.Params().At(0)
+	counters := map[types.Object]bool{}
+	ast.Inspect(fn.Body(), func(n ast.Node) bool {
+		be, ok := n.(*ast.BinaryExpr)
+		if !ok {
+			return true
+		}
+		switch be.Op {
+		case token.LSS, token.LEQ, token.GTR, token.GEQ:
+		default:
+			return true
+		}
+		for _, p := range [][2]ast.Expr{{be.X, be.Y}, {be.Y, be.X}} {
+			if sameVar(info, p[0], limit) {
+				if v, ok := objOf(info, p[1]).(*types.Var); ok && !v.IsField() && v != limit {
+					counters[v] = true
+				}
+			}
+		}
+		return true
+	})
+	g := ix.FG(fn)
+	incs := toSet(g.Match(func(n ast.Node) bool {
+		switch s := n.(type) {
+		case *ast.IncDecStmt:
+			return s.Tok == token.INC && counters[objOf(info, s.X)]
+		case *ast.AssignStmt:
+			return s.Tok == token.ADD_ASSIGN && len(s.Lhs) == 1 && counters[objOf(info, s.Lhs[0])]
+		}
+		return false
+	}))
+	key := short + "|truncate|every kept character is counted"
+	if len(counters) == 0 || len(incs) == 0 {
+		c.Undecided(rule, key, at(ix.M, fn.Pos()), "character counter not found (a local compared with the limit and incremented)")
+		return
+	}
+	bad := ""
+	nLoops := 0
+	ast.Inspect(fn.Body(), func(n ast.Node) bool {
+		switch lp := n.(type) {
+		case *ast.RangeStmt:
+			if b, ok := info.Types[lp.X].Type.Underlying().(*types.Basic); !ok || b.Info()&types.IsString == 0 {
+				return true
+			}
+			nLoops++
+			var body, head *GNode
+			for b, h := range g.head {
+				if b.Stmt == ast.Stmt(lp) {
+					switch b.Kind.String() {
+					case "RangeBody":
+						body = h
+					case "RangeLoop":
+						head = h
+					}
+				}
+			}
+			if body == nil || head == nil {
+				bad = "range loop blocks not found"
+				return true
+			}
+			seen, parent := g.Reach([]*GNode{body}, func(x *GNode) bool { return incs[x] }, nil)
+			if seen[head] {
+				bad = "the scan steps over a character without counting it (" + g.pathLines(parent, head) + "): the returned prefix can hold more than limit characters"
+			}
+		case *ast.ForStmt:
+			nLoops++
+			var writes []*GNode
+			for _, x := range g.Match(func(m ast.Node) bool {
+				call, ok := m.(*ast.CallExpr)
+				if !ok || m.Pos() < lp.Body.Pos() || m.End() > lp.Body.End() {
+					return false
+				}
+				cf := callee(info, call)
+				return cf != nil && strings.HasPrefix(cf.FullName(), "(*strings.Builder).Write")
+			}) {
+				writes = append(writes, x)
+			}
+			ws := toSet(writes)
+			for _, w := range writes {
+				seen, _ := g.Reach([]*GNode{w}, func(x *GNode) bool { return incs[x] }, nil)
+				for y := range seen {
+					if ws[y] {
+						bad = "a character is written to the result at " + ix.M.posStr(w.N.Pos()) + " and the loop continues to the next write without counting it"
+					}
+				}
+			}
+		}
+		return true
+	})
+	c.Analysed(fn)
+	c.Check(bad == "" && nLoops >= 1, rule, key, at(ix.M, fn.Pos()), itoa(nLoops)+" scanning loop(s), "+itoa(len(incs))+" counting site(s)", bad)
 }
